@@ -24,7 +24,7 @@ from hypothesis import given, strategies as st
 import jaxtyping
 from jaxtyping import Key, Shaped, UInt32, jaxtyped
 from vf import obs, usercats
-from vf.core import Violation
+from vf.core import HarnessError, Violation
 from vf.gen import dims as gd
 from vf.models import dimlang as dl
 from vf.models import dtypes as dt
@@ -445,6 +445,67 @@ def law_aliases(ctx):
             raise Violation("A-law", {"law": "A", "alias": "sanity"}, "Scalar/ScalarLike/PRNGKeyArray do not accept/reject the documented examples")
 
 
+ALIAS_FAULT_SCRIPT = r'''
+import json, sys, typing
+from typing import Union
+first_names = json.loads(sys.argv[1])
+sys.modules["jax"] = None            # injected fault: `import jax` raises ImportError for now
+import jaxtyping
+first = {}
+for name in first_names:
+    try:
+        getattr(jaxtyping, name); first[name] = "returned"
+    except ImportError:
+        first[name] = "ImportError"
+    except BaseException as e:
+        first[name] = "raised " + type(e).__name__
+del sys.modules["jax"]               # the fault is gone
+import jax, jax.numpy as jnp, jax.random as jr, jax.typing, numpy as np
+from jaxtyping import Key, Shaped, UInt32
+probes = {"jnp f32 scalar": jnp.array(1.0), "jnp i32 scalar": jnp.array(1), "jnp vector": jnp.zeros(3), "np 0-d": np.array(1.0), "np vector": np.zeros(3),
+          "np.float32": np.float32(1), "float": 1.0, "int": 1, "bool": True, "complex": 1j, "new-style key": jr.key(0), "old-style key": jr.PRNGKey(0),
+          "uint32[2]": jnp.zeros(2, dtype="uint32"), "str": "x", "None": None}
+def verdicts(ann):
+    if typing.get_origin(ann) is Union:
+        ann = typing.get_args(ann)
+    return {k: isinstance(v, ann) for k, v in probes.items()}
+documented = {"Scalar": Shaped[jax.Array, ""], "ScalarLike": Shaped[jax.typing.ArrayLike, ""], "PRNGKeyArray": Union[Key[jax.Array, ""], UInt32[jax.Array, "2"]]}
+out = {"first": first, "diff": {}}
+for name, doc in documented.items():
+    try:
+        got, want = verdicts(getattr(jaxtyping, name)), verdicts(doc)
+        d = [f"{k}: alias {got[k]}, definition {want[k]}" for k in probes if got[k] != want[k]]
+    except BaseException as e:
+        d = [f"raised {type(e).__name__}: {e}"]
+    if d:
+        out["diff"][name] = d
+print("VF15ALIAS" + json.dumps(out))
+'''
+
+
+def law_aliases_after_import_fault(ctx):
+    """Law A over a history with an injected fault: the first request for an alias is made while `import jax` fails (a path fixed up
+    later in the session); once JAX imports, every alias is its documented definition."""
+    import json
+    import os
+    import subprocess
+    import sys
+
+    orders = [list(p_) for k in (1, 2, 3) for p_ in itertools.permutations(["Scalar", "ScalarLike", "PRNGKeyArray"], k)]
+    if ctx.tier == "quick":
+        orders = [orders[i] for i in (0, 1, 2, 9)]
+    for order in orders:
+        r = subprocess.run([sys.executable, "-W", "ignore", "-c", ALIAS_FAULT_SCRIPT, json.dumps(order)], capture_output=True, text=True, timeout=300, env=dict(os.environ))
+        line = [l for l in r.stdout.splitlines() if l.startswith("VF15ALIAS")]
+        if not line:
+            raise HarnessError(f"alias fault subprocess failed: {(r.stdout + r.stderr)[-400:]}")
+        out = json.loads(line[0][len("VF15ALIAS"):])
+        ctx.note(["alias-after-import-fault", order], True, classes=["law-A-after-import-fault"], sample={"law": "alias after a failed `import jax`", "first_requests": out["first"]})
+        if out["diff"]:
+            raise Violation("A-law", {"law": "A-fault", "first": order},
+                            f"aliases first requested while `import jax` was failing ({out['first']}), requested again after JAX became importable: {out['diff']}")
+
+
 FIXED_SPEC_PAIRS = [("c", "b", False, False), ("... c", "b", True, False), ("", "*v 3", False, True), ("... c", "*v b", True, True)]
 RANK0 = [("", True), ("...", True), ("*v", True), ("*#v", True), ("a", False), ("... a", False), ("3", False), ("_", False), ("*v a", False)]
 
@@ -533,6 +594,11 @@ def run(ctx):
             law_aliases(ctx)
         except Violation as v:
             ctx.record(v)
+    if ctx.shard == 2 % ctx.nshards:
+        try:
+            law_aliases_after_import_fault(ctx)
+        except Violation as v:
+            ctx.record(v)
 
 
 def replay(case, clause, ctx):
@@ -552,6 +618,8 @@ def replay(case, clause, ctx):
             law_scalar_pair(ctx, case["cat"], case["scalars"][0], case["scalars"][1], case["spec"], dict(RANK0).get(case["spec"], False), case["with_array"])
         elif case.get("law") == "C":
             law_class(ctx, case["cat"], case["type"], case["spec"])
+        elif case.get("law") == "A-fault":
+            law_aliases_after_import_fault(ctx)
         else:
             law_aliases(ctx)
     except Violation as v:
